@@ -512,89 +512,139 @@ def r_arity(prog, tier):
 
 # ------------------------------------------------------------------------------------ R-ARGPOS
 
+def _inc_of(st):
+    """(counter text, key text) if the statement advances a per-key counter by one:
+    C.update([k]) | C[k] += 1 | C[k] = C[k] + 1"""
+    if isinstance(st, ast.Expr) and isinstance(st.value, ast.Call) and isinstance(st.value.func, ast.Attribute) \
+            and st.value.func.attr == 'update' and len(st.value.args) == 1 and isinstance(st.value.args[0], (ast.List, ast.Tuple)) \
+            and len(st.value.args[0].elts) == 1:
+        return unparse(st.value.func.value), unparse(st.value.args[0].elts[0])
+    if isinstance(st, ast.AugAssign) and isinstance(st.op, ast.Add) and isinstance(st.target, ast.Subscript) \
+            and isinstance(st.value, ast.Constant) and st.value.value == 1:
+        return unparse(st.target.value), unparse(st.target.slice)
+    if isinstance(st, ast.Assign) and len(st.targets) == 1 and isinstance(st.targets[0], ast.Subscript) \
+            and isinstance(st.value, ast.BinOp) and isinstance(st.value.op, ast.Add) \
+            and unparse(st.value.left) == unparse(st.targets[0]) and unparse(st.value.right) == '1':
+        return unparse(st.targets[0].value), unparse(st.targets[0].slice)
+    return None
+
+
+def _emission_verdict(f, n, k, v):
+    """The pair (k, v) appended at node n numbers the references to k consecutively from 0."""
+    cfg = f.cfg
+    ks = unparse(k)
+    # which counter, which offset
+    off = None
+    ctr = None
+    if isinstance(v, ast.Subscript) and unparse(v.slice) == ks:
+        ctr, off = unparse(v.value), 0
+    elif isinstance(v, ast.BinOp) and isinstance(v.op, ast.Sub) and isinstance(v.left, ast.Subscript) \
+            and unparse(v.left.slice) == ks and isinstance(v.right, ast.Constant) and isinstance(v.right.value, int):
+        ctr, off = unparse(v.left.value), -v.right.value
+    elif isinstance(v, ast.Constant):
+        return False, 'the position emitted with `%s` is the constant %r, not the count of earlier references' % (ks, v.value)
+    if ctr is None:
+        return None, 'position expression `%s` not modelled' % unparse(v)
+    incs = [m for m in cfg.eval_nodes() if m.kind == 'stmt' and _inc_of(m.ast) == (ctr, ks)]
+    if not incs:
+        anyinc = [m for m in cfg.eval_nodes() if m.kind == 'stmt' and _inc_of(m.ast) and _inc_of(m.ast)[0] == ctr]
+        if anyinc:
+            return None, 'the counter `%s` is advanced under another key expression' % ctr
+        return False, 'the counter `%s[%s]` is never advanced: every reference gets the same position' % (ctr, ks)
+    paired = [m for m in incs if cfg.same_loop(m.id, n.id) and cfg.always_with(m.id, n.id) and cfg.always_with(n.id, m.id)]
+    if not paired:
+        # positive: some run executes the emission without the increment or the other way round
+        return False, '`%s[%s]` is not advanced exactly when a reference is emitted: the counter also advances (or fails ' \
+                      'to) when nothing is emitted' % (ctr, ks)
+    m = paired[0]
+    before = cfg.dominates(m.id, n.id)
+    if len(paired) > 1:
+        return False, 'the counter is advanced %d times per emitted reference' % len(paired)
+    want = -1 if before else 0
+    if off == want:
+        return True, '`%s` %s the emission and happens exactly with it; emitted position %s[%s]%s' % (
+            unparse(m.ast), 'precedes' if before else 'follows', ctr, ks, ' - 1' if before else '')
+    return False, 'the counter is advanced %s the emission but the emitted position is %s[%s]%+d: positions start at %d' % (
+        'before' if before else 'after', ctr, ks, off, (1 + off) if before else off)
+
+
 def r_argpos(prog, tier):
     """Every emitted pair (k, n) carries n = number of earlier emissions for k."""
     obs = []
-    f = prog.func('grammar', 'linsub')
-    cfg = f.cfg
     sites = 0
-    for n in cfg.eval_nodes():
-        if n.kind != 'stmt' or not isinstance(n.ast, ast.Expr) or not isinstance(n.ast.value, ast.Call):
-            continue
-        c = n.ast.value
-        if not (isinstance(c.func, ast.Attribute) and c.func.attr == 'append' and len(c.args) == 1
-                and isinstance(c.args[0], ast.Tuple) and len(c.args[0].elts) == 2):
-            continue
-        k, v = c.args[0].elts
-        ks = unparse(k)
-        # idiom A: counter.update([k]) immediately before, value counter[k] - 1
-        okA = False
-        why = 'the position emitted with `%s` is not the count of earlier emissions for it' % ks
-        if isinstance(v, ast.BinOp) and isinstance(v.op, ast.Sub) and unparse(v.right) == '1' \
-                and isinstance(v.left, ast.Subscript) and unparse(v.left.slice) == ks:
-            ctr = unparse(v.left.value)
-            for m in cfg.eval_nodes():
-                if m.kind == 'stmt' and unparse(m.ast) == '%s.update([%s])' % (ctr, ks) \
-                        and cfg.dominates(m.id, n.id) and cfg.postdominates(n.id, m.id) \
-                        and cfg.dominates(m.id, n.id) and not cfg.between(m.id, n.id) \
-                        and cfg.same_loop(m.id, n.id):
-                    # the update happens only together with the append
-                    if set(cfg.succ[m.id]) <= {n.id} | set(cfg.succ[m.id]) and n.id in cfg.succ[m.id]:
-                        okA = True
-                        why = '`%s.update([%s])` directly precedes the emission and happens only with it' % (ctr, ks)
-            if not okA:
-                why = '`%s.update([%s])` does not directly precede this emission in the same branch: the ' \
-                      'counter also advances (or fails to) when nothing is emitted' % (ctr, ks)
-        sites += 1
-        obs.append(Ob('R-ARGPOS', f.fq, 'emission `%s` numbers the argument position consecutively'
-                      % unparse(n.ast), okA, why, construct='argpos:' + unparse(n.ast), line=n.lineno))
-    # every update is directly followed by an emission
-    for m in cfg.eval_nodes():
-        if m.kind == 'stmt' and isinstance(m.ast, ast.Expr) and isinstance(m.ast.value, ast.Call) \
-                and isinstance(m.ast.value.func, ast.Attribute) and m.ast.value.func.attr == 'update':
-            nxt = cfg.succ[m.id]
-            ok = len(nxt) == 1 and cfg.nodes[nxt[0]].kind == 'stmt' and '.append((' in unparse(cfg.nodes[nxt[0]].ast)
-            obs.append(Ob('R-ARGPOS', f.fq, 'counter update `%s` is consumed by an emission right after it'
-                          % unparse(m.ast), ok, 'followed by `%s`' % unparse(cfg.nodes[nxt[0]].ast) if ok else
-                          'the counter advances without an emission', construct='argpos-upd:' + unparse(m.ast) + str(len(nxt)),
-                          line=m.lineno))
-    # extract: emit((k, c[k])); c[k] += 1
-    f = prog.func('grammar', 'extract')
-    cfg = f.cfg
-    for n in cfg.eval_nodes():
-        if n.kind != 'stmt' or not isinstance(n.ast, ast.Expr) or not isinstance(n.ast.value, ast.Call):
-            continue
-        c = n.ast.value
-        if not (isinstance(c.func, ast.Attribute) and c.func.attr == 'append' and len(c.args) == 1
-                and isinstance(c.args[0], ast.Tuple) and len(c.args[0].elts) == 2):
-            continue
-        k, v = c.args[0].elts
-        ok = False
-        why = 'no `<counter>[%s] += 1` directly after the emission' % unparse(k)
-        if isinstance(v, ast.Subscript) and unparse(v.slice) == unparse(k):
-            nxt = cfg.succ[n.id]
-            if len(nxt) == 1 and cfg.nodes[nxt[0]].kind == 'stmt' \
-                    and unparse(cfg.nodes[nxt[0]].ast) == '%s += 1' % unparse(v):
-                ok = True
-                why = 'followed directly by `%s += 1`' % unparse(v)
-        sites += 1
-        obs.append(Ob('R-ARGPOS', f.fq, 'emission `%s` numbers the argument position consecutively'
-                      % unparse(n.ast), ok, why, construct='argpos:' + unparse(n.ast), line=n.lineno))
-        # the merge test looks at the current argument only
-        conds = [a for a in cfg.assumes_at(n.id) if a.pol and isinstance(a.ast, ast.BoolOp)]
-        okm = False
-        cur = unparse(c.func.value)
-        for a in cfg.assumes_at(n.id):
-            if a.pol and isinstance(a.ast, ast.BoolOp) and isinstance(a.ast.op, ast.Or) and len(a.ast.values) == 2:
-                p = [norm_test(x, True) for x in a.ast.values]
-                e1 = ('cmp', 'len(%s)' % cur, '==', '0') in p or ('truthy', cur, False) in p
-                e2 = ('cmp', '%s[-1][0]' % cur, '!=', unparse(k)) in p or ('cmp', unparse(k), '!=', '%s[-1][0]' % cur) in p
-                okm = e1 and e2
-        obs.append(Ob('R-EXTRACT/MERGE', f.fq, 'a new reference is emitted iff the current argument is empty or its '
-                      'last reference is to another child', okm,
-                      'guard `len(%s) == 0 or %s[-1][0] != %s`' % (cur, cur, unparse(k)) if okm else
-                      'the emission is not guarded by exactly the test on the *current* argument `%s`' % cur,
-                      construct='extract-merge', line=n.lineno))
+    for fname in ('linsub', 'extract'):
+        f = prog.func('grammar', fname)
+        cfg = f.cfg
+        for n in cfg.eval_nodes():
+            if n.kind != 'stmt' or not isinstance(n.ast, ast.Expr) or not isinstance(n.ast.value, ast.Call):
+                continue
+            c = n.ast.value
+            if not (isinstance(c.func, ast.Attribute) and c.func.attr == 'append' and len(c.args) == 1
+                    and isinstance(c.args[0], ast.Tuple) and len(c.args[0].elts) == 2):
+                continue
+            k, v = c.args[0].elts
+            ok, why = _emission_verdict(f, n, k, v)
+            sites += 1
+            obs.append(Ob('R-ARGPOS', f.fq, 'emission `%s` numbers the argument position consecutively'
+                          % unparse(n.ast), ok, why, construct='argpos:' + unparse(n.ast), line=n.lineno))
+            if fname != 'extract':
+                continue
+            # the merge test: emitted iff the current argument is empty or its last reference is to another child
+            from ..values import guard_table
+            cur = unparse(c.func.value)
+            ks_ = unparse(k)
+
+            def atom_of(fa, cur=cur, ks_=ks_):
+                L = 'len(%s)' % cur
+                if fa in (('cmp', L, '==', '0'), ('truthy', cur, False), ('cmp', L, '<', '1'), ('cmp', L, '<=', '0')):
+                    return ('empty', True)
+                if fa in (('cmp', L, '!=', '0'), ('truthy', cur, True), ('cmp', '0', '<', L), ('cmp', '1', '<=', L)):
+                    return ('empty', False)
+                last = '%s[-1][0]' % cur
+                if fa[0] == 'cmp' and fa[2] in ('==', '!=') and set((fa[1], fa[3])) == set((last, ks_)):
+                    return ('same', fa[2] == '==')
+                return None
+            okm = None
+            whym = 'the guard of the emission is not a combination of "argument empty" and "last reference is this child"'
+            try:
+                inner = n.loops[-1] if n.loops else None
+                tab, tests = guard_table(f, n.id, ['empty', 'same'], atom_of, within=inner)
+                want = tuple((e_ or not s_) for (e_, s_) in [(bool(k_ & 1), bool(k_ & 2)) for k_ in range(4)])
+                if not tests:
+                    okm, whym = False, 'the emission is not guarded at all: consecutive tokens of one child get one reference each'
+                elif tab == want:
+                    okm, whym = True, 'guard equivalent to `len(%s) == 0 or %s[-1][0] != %s` (all four cases compared)' % (cur, cur, ks_)
+                else:
+                    k_ = [i for i in range(4) if tab[i] != want[i]][0]
+                    okm = False
+                    whym = 'with the current argument %s and its last reference %s this child, the code %s a reference; the ' \
+                           'rule is the opposite' % ('empty' if k_ & 1 else 'non-empty', 'to' if k_ & 2 else 'not to',
+                                                     'emits' if tab[k_] else 'does not emit')
+            except Unrecognised as ex:
+                whym = str(ex)
+                # positive evidence: the guard compares the child with a "previous" local that is carried over from one
+                # block to the next (set in the token loop, never reset in the block loop)
+                blocks = [l for l in n.loops if cfg.nodes[l].kind == 'iter' and isinstance(cfg.nodes[l].ast.iter, ast.Call)
+                          and prog.callee(cfg.nodes[l].ast.iter, f) == ('trees', 'terminal_blocks')]
+                if blocks and inner is not None and inner != blocks[0]:
+                    B = blocks[0]
+                    for a_ in cfg.assumes_at(n.id):
+                        if inner not in a_.loops:
+                            continue
+                        fa = norm_test(a_.ast, a_.pol)
+                        if fa[0] == 'cmp' and fa[2] in ('==', '!=') and ks_ in (fa[1], fa[3]):
+                            other = fa[3] if fa[1] == ks_ else fa[1]
+                            if other.isidentifier() and other in f.locals:
+                                defs_ = name_defs(f, other)
+                                in_tok = [d_ for (d_, v_) in defs_ if inner in cfg.nodes[d_].loops]
+                                in_blk = [d_ for (d_, v_) in defs_ if B in cfg.nodes[d_].loops and inner not in cfg.nodes[d_].loops]
+                                if in_tok and not in_blk:
+                                    okm = False
+                                    whym = 'the guard compares the child with `%s`, which is set per token and never reset when a ' \
+                                           'new block starts: the first token of a block that belongs to the same child as the ' \
+                                           'last token of the previous block gets no reference' % other
+            obs.append(Ob('R-EXTRACT/MERGE', f.fq, 'a new reference is emitted iff the current argument is empty or its '
+                          'last reference is to another child', okm, whym, construct='extract-merge', line=n.lineno))
     if sites < 3:
         raise Unrecognised('R-ARGPOS found %d emission sites (at least 3 expected)' % sites)
     # one argument per block
@@ -1032,6 +1082,10 @@ def _gap_predicates(f):
     return out
 
 
+class _OneOnly(Exception):
+    pass
+
+
 def r_discont(prog, tier):
     obs = []
     sites = [('treeanalysis', 'gap_degree_node'), ('trees', 'terminal_blocks'), ('treeanalysis', 'gap_type'),
@@ -1197,6 +1251,11 @@ def r_discont(prog, tier):
                 raise Unrecognised('no fan-out test found')
             loops_ = [n_ for n_ in cfg.eval_nodes() if n_.kind == 'iter']
             el = [n_ for n_ in loops_ if linv in [x.id for x in ast.walk(n_.ast.target) if isinstance(x, ast.Name)]]
+            if not el:
+                dv = [v for (_, v) in name_defs(f, linv) if isinstance(v, ast.AST)]
+                if dv and all((isinstance(v, ast.Call) and unparse(v.func) == 'next') or
+                              (isinstance(v, ast.Subscript) and isinstance(v.slice, (ast.Constant, ast.UnaryOp))) for v in dv):
+                    raise _OneOnly(unparse(dv[0]))
             if len(el) != 1 or len(el[0].loops) != 1:
                 raise Unrecognised('the linearization loop is not nested in exactly one loop over the rules')
             outer = cfg.nodes[el[0].loops[0]]
@@ -1216,6 +1275,9 @@ def r_discont(prog, tier):
                 why = 'line %d returns %s although %s' % (cfg.nodes[at].lineno, v,
                                                          'a linearization with more than one argument exists (possibly one the '
                                                          'loop skipped or never reached)' if sn else 'no linearization has more than one argument')
+        except _OneOnly as ex:
+            ok, why = False, 'only one linearization per rule is inspected (`%s`): a rule that is continuous in that one ' \
+                             'and discontinuous in another passes' % ex
         except Unrecognised as ex:
             ok, why = None, 'not followed: %s' % ex
     obs.append(Ob('R-DISCONT/CHAIN', f.fq, 'a grammar is context-free iff no linearization has more than one argument',
